@@ -1,7 +1,9 @@
 // C15/C16 correspondence harness: the real counting_set count cache and the real reducing
 // adapter (map and array targets, reduce_by_key_map), driven by a script that the check
 // generates from the seed.  args: <mode> <scriptfile> [opid]
-//   mode  cset | rmap | rarr | rbkvec | rbkbag        opid 0 = sum, 1 = max, 2 = xor
+//   mode  cset | rmap | rarr | rbkvec | rbkbag
+//   opid  0 sum  1 max  2 xor  |  operators for which the value-initialised T{} (0) is NOT neutral:
+//         3 min  4 product mod 1000003  5 bitwise and  6 max of the values read as signed 64-bit (negatives)
 // script lines (every rank reads the whole file and interprets the lines of its rank):
 //   U k k k ...                    key universe (owners are printed, final queries use it)
 //   L len                          rarr: array length
@@ -71,7 +73,15 @@ struct HV {
 struct Red {   // stateless (the library calls it through a null pointer); the operator is chosen by g_opid
   HV operator()(const HV& a, const HV& b) const {
     HV r;
-    r.val = g_opid == 0 ? a.val + b.val : (g_opid == 1 ? (a.val > b.val ? a.val : b.val) : (a.val ^ b.val));
+    switch (g_opid) {
+      case 0: r.val = a.val + b.val; break;
+      case 1: r.val = a.val > b.val ? a.val : b.val; break;
+      case 2: r.val = a.val ^ b.val; break;
+      case 3: r.val = a.val < b.val ? a.val : b.val; break;
+      case 4: r.val = (a.val % 1000003ULL) * (b.val % 1000003ULL) % 1000003ULL; break;
+      case 5: r.val = a.val & b.val; break;
+      default: r.val = (int64_t)a.val > (int64_t)b.val ? a.val : b.val; break;
+    }
     r.key = a.key == NOKEY ? b.key : (b.key == NOKEY || b.key == a.key ? a.key : BADKEY);
     return r;
   }
@@ -125,6 +135,11 @@ struct ra_handler {
   }
 };
 
+// initial value of the array elements: neutral for the operator on the value range the check uses
+// (the array folds every contribution into the element's previous value)
+static uint64_t array_init() {
+  switch (g_opid) { case 3: return 1ULL << 63; case 4: return 1; case 5: return ~0ULL; case 6: return 1ULL << 63; default: return 0; }
+}
 static std::string u(uint64_t x) { return std::to_string((unsigned long long)x); }
 
 extern "C" int sim_main(int argc, char** argv) {
@@ -171,9 +186,9 @@ extern "C" int sim_main(int argc, char** argv) {
     g_trace = false;
     dump("kv");
   } else if (mode == "rarr") {
-    ygm::container::array<HV> a(world, (size_t)s.len);
+    ygm::container::array<HV> a(world, (size_t)s.len, HV(array_init(), NOKEY));
     for (uint64_t k : s.universe) hc::out("own " + u(k) + " " + std::to_string(a.owner(k)));
-    auto dump = [&](const std::string& tag) { std::ostringstream o; o << tag; a.for_all([&o](const size_t k, HV& v) { if (!(v == HV())) o << " " << k << ":" << v.val << ":" << v.key; }); hc::out(o.str()); world.cf_barrier(); };
+    auto dump = [&](const std::string& tag) { std::ostringstream o; o << tag; a.for_all([&o](const size_t k, HV& v) { if (v.key != NOKEY) o << " " << k << ":" << v.val << ":" << v.key; }); hc::out(o.str()); world.cf_barrier(); };
     {
       auto ra = ygm::container::detail::make_reducing_adapter(a, Red());
       using RA = decltype(ra);
